@@ -29,5 +29,15 @@ meta = {"name": name, "breaks_property": name.split("-")[0], "needs_to_manifest"
         "confirmed": clines, "how_checks_were_run": "tools/seed_iso.sh: quick checks of the committed /verif on a scratch worktree of /repo HEAD with the patch applied (neither /repo nor /verif touched)", "checks_run": results, "sample_violations": viol,
         "detected_by": [p for p, r in results.items() if r["exit"] == 1],
         "base_commit": subprocess.run(["git", "-C", "/repo", "rev-parse", "--short", "HEAD"], capture_output=True, text=True).stdout.strip()}
+try:
+    old = json.load(open(d + "/meta.json"))
+    for k in ("rebased", "history"):
+        if k in old: meta[k] = old[k]
+    prev = old.get("detected_by")
+    if prev is not None and prev != meta["detected_by"]:
+        meta.setdefault("history", []).append({"verif_commit_before": old.get("verif_commit", "0c4a499 or earlier"), "detected_by": prev})
+except FileNotFoundError:
+    pass
+meta["verif_commit"] = subprocess.run(["git", "-C", "/verif", "rev-parse", "--short", "HEAD"], capture_output=True, text=True).stdout.strip()
 json.dump(meta, open(d + "/meta.json", "w"), indent=1)
 print("KEPT", name, "detected_by", meta["detected_by"])
